@@ -151,11 +151,26 @@ def step_contracts(run):
                         sc = x.fields["_scale"].elem([])
                         run.add(f"C12/adopts-scale-of-quantized-input[{tag}]/path{pi}", r.hyps + facts, new == sc, "property", inst, replay=rp)
                         continue
-                    if len(reds) != 1:
-                        run.undecide(f"C12/{tag}/path{pi}", f"expected one absmax reduction, found {len(reds)}", inst)
-                        continue
-                    ri = reds[0]
                     src_name = "X" if hook == "input-float" else "RAW"
+                    if len(reds) != 1:
+                        # several reductions: the range must still be THE absmax of the right tensor - pick the amax over |source| (structurally:
+                        # element term of the reduced tensor is the absolute value of the source element), the EMA clause below then decides
+                        cands = []
+                        for rc in reds:
+                            if rc.kind != "amax" or len(rc.src.shape) != 2:
+                                continue
+                            ii, _ = idx_vars("rsel", rc.src.shape)
+                            E.drain()
+                            tv = rc.src_fn(ii)
+                            E.drain()
+                            xv = z3.Function(src_name, z3.IntSort(), z3.IntSort(), z3.RealSort())(*ii)
+                            if z3.eq(z3.simplify(tv), z3.simplify(absr(xv))):
+                                cands.append(rc)
+                        if len(cands) != 1:
+                            run.undecide(f"C12/{tag}/path{pi}", f"expected one absmax reduction, found {len(reds)} reductions, {len(cands)} of them over |{src_name}|", inst)
+                            continue
+                        reds = cands
+                    ri = reds[0]
                     # the range is taken over the whole float input / raw output: all dims reduced, source is |X| resp. |RAW|
                     ids, inb = idx_vars("i", ri.src.shape)
                     xf = z3.Function(src_name, z3.IntSort(), z3.IntSort(), z3.RealSort())
@@ -218,7 +233,7 @@ def replay(model, seed, inst, scale_one="any"):
     for m in (0.0, 0.5, 0.9):
         near = (float(qmax) * (1 + 4e-6), float(qmax) / 10, 1.0)
         exact = (float(qmax), float(qmax) / 10, 1.0)
-        for mags in {"never": ((1.0, 3.0, 0.5), near), "exactly": (exact,), "any": ((1.0, 3.0, 0.5), near, exact)}[scale_one]:
+        for mags, onesided in [(mg_, os_) for mg_ in {"never": ((1.0, 3.0, 0.5), near), "exactly": (exact,), "any": ((1.0, 3.0, 0.5), near, exact)}[scale_one] for os_ in (False, True)]:
             lin = torch.nn.Linear(4, 3)
             qlin = QLinear.from_module(lin, weights=qtypes["qint8"], activations=aq)
             exp_in = None
@@ -227,6 +242,8 @@ def replay(model, seed, inst, scale_one="any"):
                 for k, mg in enumerate(mags):
                     x = torch.randn(2, 4)
                     x = x / x.abs().max() * mg
+                    if onesided:
+                        x = -x.abs()      # no positive element at all
                     raw = qlin.qforward(x) if False else None
                     qlin(x)
                     b_in = x.abs().max() / qmax
